@@ -616,7 +616,10 @@ func mLex(src string) (items []interface{}, bad string, dc bool) {
 					i += 2
 				}
 			case r == '{' && i+1 < len(rs) && rs[i+1] == '{':
-				return nil, "", true // "{{" inside a tag
+				if len(toks) > 0 && toks[0] == "s:!" {
+					return nil, "", true // "{{" inside a comment: what a comment may contain is not stated
+				}
+				return nil, "unclosed tag", false // a tag that meets the next opening braces before its own closing ones was never closed
 			case r == '"' || r == '\'':
 				return nil, "", true // quoted text inside a tag
 			default:
